@@ -62,9 +62,11 @@ RULE = (
     'entries (sorted and reversed for 4).  Each case populates the same map '
     'twice; the whole oracle runs after the first and after the second '
     'population (so one- and two-population histories are both covered).  '
-    'Part "backlinks" re-runs tree x rules x nest x trim (sorted listing, '
-    'options at construction) and checks only parent/key of every reachable '
-    'node.  A case is distinct by its input tuple; non-trivial = it '
+    'Parts "backlinks" (and "backlinks-pairs" in thorough) re-run tree x '
+    'rules x nest x trim of the corresponding mirror part (sorted listing, '
+    'options at construction) and check only parent/key of every reachable '
+    'node, shadowed handles included.  A case is distinct by its input '
+    'tuple; non-trivial = it '
     'exercised at least one named shortcut (conflict layering/replacement, '
     'trimmed key, filter rejection, directory with extension, empty '
     'directory, missing / non-directory rule path, implicit sub-map, ...).')
@@ -766,9 +768,10 @@ def check_population(m, recorder, mod, rules, nest, trim, pops, raised,
                            else 'handle_for_directory' if f in tree_dirs
                            else 'handle_for_nothing')
         if bad:
+            src = (recorder.file_of(node) if isinstance(node, RecHandle)
+                   else type(node).__name__)
             what = (f'sub-map at {key!r}' if kind == 'map' else
-                    f'handle at {key!r} (layer {layer}) built from '
-                    f'{recorder.file_of(node) if isinstance(node, RecHandle) else node!r}')
+                    f'handle at {key!r} (layer {layer}) built from {src!r}')
             return Violation(
                 'nothing_else',
                 f'population {pops}: {what} corresponds to no accepted file '
@@ -1041,24 +1044,40 @@ REQUIRED_UNLESS_VIOLATED = dict(
     implicit_submap_backlinked='backlinks')
 
 
+def _term(signum, frame):
+    raise SystemExit(128 + signum)
+
+
+def _default_sigterm_in_child():
+    """Forked pool workers must die on SIGTERM at once (``Pool.terminate``
+    relies on it: a worker forked while the pool shuts down can sit in a
+    lock where a Python-level handler never runs, and the parent would join
+    it for ever - observed).  Only the parent turns SIGTERM into cleanup."""
+    try:
+        if signal.getsignal(signal.SIGTERM) is _term:
+            signal.signal(signal.SIGTERM, signal.SIG_DFL)
+    except (ValueError, OSError):
+        pass
+
+
+os.register_at_fork(after_in_child=_default_sigterm_in_child)
+
+
 class _Scratch:
     """Creates the private directory and removes it whatever happens
-    (SIGTERM from ``timeout`` included: it is turned into SystemExit so that
-    the ``finally`` clauses run; forked workers inherit that and clean their
-    current case the same way)."""
+    (SIGTERM from ``timeout`` included: in the parent it is turned into
+    SystemExit so that the pool is terminated and the ``finally`` clauses
+    run; workers keep the default action and the parent removes their
+    directories with the base directory)."""
 
     def __enter__(self):
         self._old = None
         try:
-            self._old = signal.signal(signal.SIGTERM, self._term)
+            self._old = signal.signal(signal.SIGTERM, _term)
         except ValueError:          # not in the main thread
             pass
         _make_base()
         return self
-
-    @staticmethod
-    def _term(signum, frame):
-        raise SystemExit(128 + signum)
 
     def __exit__(self, *exc):
         _drop_base()
